@@ -134,7 +134,7 @@ Section Instance.
      the rewrite stage below, which recomputes the same stages, reports the panic *)
   Definition conc_core (v : K.view) (L : N) (rows : K.rows3) : K.core_out :=
     match pre L (v_modified v) with
-    | B.Ok a => K.mkCO rows (Some (N.of_nat (fst (fst (T.pr_eos a))))) [] (Some (rev (K.seqN (N.of_nat (List.length (T.pr_result a))))))
+    | B.Ok a => K.mkCO rows (Some (N.of_nat (fst (fst (T.pr_eos a))))) [] (Some (rev (K.seqN (N.of_nat (List.length (pre_nodes a))))))
     | B.Err => K.mkCO rows None [] None
     | B.Panic => K.mkCO rows None [] (Some [])
     end.
@@ -360,5 +360,142 @@ Section Bridge.
         destruct (Z.of_N 65535 <? B.as_usize l)%Z eqn:G; [|exact I].
         replace (65535 <? Z.to_N (B.as_usize l)) with true by lia. exact I.
       + exact I.
+  Qed.
+
+  Lemma run_stack_cons : forall p r s t,
+    T.run_stack cfg (p :: r) s t =
+    match stack_step p s t with
+    | B.Ok (s', t') => T.run_stack cfg r s' t'
+    | B.Err => B.Err
+    | B.Panic => B.Panic
+    end.
+  Proof.
+    intros p r s t. cbn [T.run_stack]. unfold stack_step.
+    destruct (B.commit cfg s _) as [s'| |]; try reflexivity.
+    destruct (Nz.apply_edits t _); reflexivity.
+  Qed.
+
+  (* the whole chain of input-text plugins *)
+  Lemma stack_bridge : forall t0 ps b s t,
+    R t0 b s t -> agree_step t0 (K.rewrite_input K.Fexp E (map conc_plugin ps) b) (T.run_stack cfg ps s t).
+  Proof.
+    intros t0 ps. induction ps as [|p r IH]; intros b s t HR.
+    - cbn [map K.rewrite_input T.run_stack agree_step]. exact HR.
+    - cbn [map K.rewrite_input]. rewrite run_stack_cons.
+      pose proof (plugin_bridge t0 p b s t HR) as Hp.
+      destruct (K.plugin_step K.Fexp E (conc_plugin p) b) as [st b'].
+      destruct (stack_step p s t) as [[s' t']| |]; destruct st; cbn [agree_step] in Hp; try contradiction; try exact I.
+      apply IH. exact Hp.
+  Qed.
+
+  (* build() touches neither the texts nor the offset map *)
+  Lemma build_keeps : forall b,
+    K.original (K.build K.Fexp E b) = K.original b /\ K.modified (K.build K.Fexp E b) = K.modified b /\
+    K.m2o (K.build K.Fexp E b) = K.m2o b /\ K.replaces (K.build K.Fexp E b) = K.replaces b.
+  Proof. intros b. destruct b as [o md md2 mo mo2 mc c2 b2 bw ct cc rp st]. repeat split; reflexivity. Qed.
+
+  (* ------------------------------------------------------------------ the mode plays no part before split_path *)
+  Lemma loop_ids_mode : forall sm L t todo La ids p,
+    T.loop_ids cfg (tk_at base gi sm L) t La ids p todo = T.loop_ids cfg (tk_at base gi Sp.ModeC L) t La ids p todo.
+  Proof.
+    intros sm L t. induction todo as [|k IH]; intros La ids p; [reflexivity|].
+    cbn [T.loop_ids].
+    change (T.offered_at cfg (tk_at base gi sm L) t p) with (T.offered_at cfg (tk_at base gi Sp.ModeC L) t p).
+    change (T.offered_ids cfg (tk_at base gi sm L) t p) with (T.offered_ids cfg (tk_at base gi Sp.ModeC L) t p).
+    change (T.tk_conn (tk_at base gi sm L)) with (T.tk_conn (tk_at base gi Sp.ModeC L)).
+    destruct (SudachiVerif.Model.BuildLattice.has_previous_node La p); [|apply IH].
+    destruct (T.offered_at cfg (tk_at base gi Sp.ModeC L) t p); [reflexivity|apply IH].
+  Qed.
+
+  Lemma pre_split_mode : forall sm L t, T.pre_split cfg (tk_at base gi sm L) t = pre base gi L t.
+  Proof.
+    intros sm L t. unfold pre, T.pre_split. rewrite loop_ids_mode. reflexivity.
+  Qed.
+
+  (* ------------------------------------------------------------------ a probe on a fresh tokenizer is tokenize_model *)
+  Definition buf_of_view (v : K.view) : B.buf :=
+    let '(o, md, mo, _, _, _, _, _, _, _) := v in B.mkBuf (PF.enc o) (PF.enc md) (map N.to_nat mo).
+
+  (* what the API reports for a probe: Morpheme::{begin, end, begin_c, end_c, surface, word_id} of the collected list *)
+  Definition report_probe (r : K.result * option K.observation) : B.res (list T.morpheme) :=
+    match r with
+    | (K.ROk, Some (v, _, nodes, _)) =>
+        match T.report_all cfg (buf_of_view v) nodes with Some ms => B.Ok ms | None => B.Panic end
+    | (K.ROk, None) => B.Panic
+    | (K.RErr, _) => B.Err
+    | (K.RPanic, _) => B.Panic
+    end.
+
+  Lemma node_eqb_refl : forall n, Sp.node_eqb n n = true.
+  Proof. intros n. unfold Sp.node_eqb. rewrite !N.eqb_refl. reflexivity. Qed.
+
+  Lemma nodes_eqb_refl : forall l, H.list_eqb Sp.node_eqb l l = true.
+  Proof. induction l as [|x l IH]; [reflexivity|]. cbn. rewrite node_eqb_refl, IH. reflexivity. Qed.
+
+  Lemma map_nth_seq : forall (l : list K.rnode) d k,
+    map (fun id => nth (N.to_nat id) (l) d) (map N.of_nat (seq k (List.length l))) = map (fun i => nth i l d) (seq k (List.length l)).
+  Proof. intros l d k. rewrite map_map. apply map_ext. intros i. rewrite Nat2N.id. reflexivity. Qed.
+
+  Lemma nth_seq_all : forall (l : list K.rnode) d, map (fun i => nth i l d) (seq 0 (List.length l)) = l.
+  Proof.
+    intros l d. induction l as [|x l IH]; [reflexivity|].
+    cbn [List.length seq map nth]. f_equal. rewrite <- seq_shift, map_map. exact IH.
+  Qed.
+
+  Lemma view_modified : forall b, v_modified (K.view_of b) = K.modified b.
+  Proof. intros b. reflexivity. Qed.
+
+  Theorem fresh_probe_is_tokenize_model : forall m L t0,
+    report_probe (K.probe K.Fexp E t0 (K.fresh m L)) = T.tokenize_model cfg (tk_at base gi (smode m) L) t0.
+  Proof.
+    intros m L t0. unfold K.probe, K.analyse.
+    rewrite (KP.prep_canonical (K.fresh m L) t0 eq_refl).
+    change (K.modified_2 (K.input (K.fresh m L))) with (@nil N).
+    change (K.m2o_2 (K.input (K.fresh m L))) with (@nil N).
+    change (K.tok_reset K.Fexp (K.fresh m L)) with (K.mkTok K.ib_default false m [] K.lat_default [] (Some []) L).
+    unfold K.do_tokenize. cbn [K.input K.with_input K.debug K.mode K.oov K.lat K.top_path_ids K.top_path K.subset].
+    cbn [K.modified_2 K.m2o_2 K.ib_default].
+    unfold T.tokenize_model.
+    pose proof (start_build_bridge t0 [] []) as Hsb.
+    destruct (K.start_build K.Fexp (KP.canonical t0 [] [])) as [ok1 b1].
+    destruct (B.start_build cfg (PF.enc t0)) as [s0| |]; destruct ok1; try contradiction; [|reflexivity].
+    cbn [negb].
+    pose proof (stack_bridge t0 (T.tk_plugins base) b1 s0 t0 Hsb) as Hst.
+    change (K.e_plugins E) with (map (conc_plugin) (T.tk_plugins base)).
+    change (T.tk_plugins (tk_at base gi (smode m) L)) with (T.tk_plugins base).
+    destruct (K.rewrite_input K.Fexp E (map conc_plugin (T.tk_plugins base)) b1) as [st2 b2].
+    destruct (T.run_stack cfg (T.tk_plugins base) s0 t0) as [[s t]| |]; destruct st2; cbn [agree_step] in Hst;
+      try contradiction; try reflexivity.
+    destruct Hst as (Ho & Hm & Hmo & Hr & Hso & Hsc & _).
+    destruct (build_keeps b2) as (Bo & Bm & Bmo & _).
+    set (b3 := K.build K.Fexp E b2) in *.
+    assert (Hbuf : buf_of_view (K.view_of b3) = s).
+    { unfold buf_of_view, K.view_of. rewrite Bo, Bm, Bmo, Ho, Hm, Hmo, to_of_nat_list, <- Hso, <- Hsc. destruct s; reflexivity. }
+    rewrite Bm, Hm.
+    destruct t as [|c tr].
+    - cbn [K.is_nil report_probe K.collected K.top_path K.input K.subset]. cbn. reflexivity.
+    - cbn [K.is_nil].
+      unfold K.with_input. cbn [K.input K.lat K.subset K.mode K.top_path K.top_path_ids K.debug K.oov].
+      unfold K.analysis_phase, T.analyse.
+      cbn [K.input K.lat K.subset K.mode K.top_path K.top_path_ids K.debug K.oov].
+      rewrite pre_split_mode.
+      change (K.e_core E) with (conc_core base gi). change (K.e_node E) with (conc_node base gi).
+      change (K.e_prw E) with (conc_prw base gi). change (K.e_split E) with (conc_split gi).
+      unfold conc_core, conc_node, conc_prw. rewrite !view_modified, Bm, Hm.
+      destruct (pre base gi L (c :: tr)) as [a| |] eqn:Ep.
+      + cbn [K.co_ids K.co_rows app].
+        rewrite rev_involutive. unfold K.seqN. rewrite Nat2N.id.
+        rewrite (map_nth_seq (pre_nodes a) POISON 0), nth_seq_all.
+        rewrite nodes_eqb_refl.
+        unfold conc_split. rewrite view_modified, Bm, Hm.
+        change (T.tk_hw (tk_at base gi (smode m) L)) with (SPL.hw_of gi L).
+        change (T.tk_ua (tk_at base gi (smode m) L)) with (SPL.units_of gi C.F_a L).
+        change (T.tk_ub (tk_at base gi (smode m) L)) with (SPL.units_of gi C.F_b L).
+        change (T.tk_mode (tk_at base gi (smode m) L)) with (smode m).
+        destruct (Sp.tokenize_mode _ _ _ _ _ _) as [final|]; [|reflexivity].
+        cbn [report_probe K.collected K.top_path K.input K.subset T.an_final].
+        rewrite Hbuf. reflexivity.
+      + reflexivity.
+      + cbn [K.co_ids K.co_rows app rev map]. reflexivity.
   Qed.
 End Bridge.
